@@ -11,6 +11,21 @@ CLAIMED = {
             "Seeded search over interleavings (object-store-request granularity) of 2..4 real ObjectStoreMetadataClients with injected request failures (before/after effect) and delays; every catalog.json version ever written is checked to be exactly one model step of exactly one in-flight operation, with index/map agreement on every version. Sampling, not proof: the quantifier is all schedules x histories, which only a search can approach.",
             "Trusts object_store::memory::InMemory as the model of S3 conditional PUT; a lost response (fail-after-effect) may legitimately leave one applied version behind a failed call.",
             "DESIGN.md section 3 C02"),
+    "C05": ("ingest", "fault_enumeration",
+            "deterministic simulation of the WAL on a fault-injecting disk shim: seeded operation histories with crashes, plus a systematic sweep cutting the final write at every byte offset; reference-log oracle",
+            "Real WriteAheadLog + flushed_seq persistence on a synchronous tmpfs shim whose every file operation can fail, write short, be torn at a byte, or kill the process. Random histories (append/rotate/truncate/persist/reopen, 1..4 crash-reopen rounds) and, for N generated histories, one run per byte offset 0..=T of the final append plus 'die right after creating the rotated segment' (enumeration of that fault position, sampling of histories). After every reopen the recovered log must equal the reference log minus a monotone prefix of truncated entries, an in-doubt entry is present iff written completely, payloads decode to the appended batches, every seq/next_seq exceeds all acknowledged seqs and the recorded flushed mark.",
+            "Process-crash semantics (bytes written before the cut survive; nothing is reordered); power-loss loss of un-synced data is not modelled. Disk errors in the middle of an entry are outside C05's quantifier (covered under C01).",
+            "DESIGN.md section 3 C05"),
+    "C06": ("ingest", "exploration",
+            "deterministic simulation: seeded interleaving of concurrent writers, threshold and timer flushes at every object-store request and the post-WAL-append pause point; exact multiset oracle on decoded chunks and subscriber streams",
+            "Fault-free runs of the real Ingester with 2..4 writers, 4 schema variants (both timestamp types, nullable labels, numeric extremes), flush thresholds 2..50, timer 0.2..5 s, WAL on/off, both catalogs; after shutdown the multiset of rows decoded from all catalogued chunks equals the rows of accepted writes (BufferFull rejections contribute nothing), every catalog entry has the file's true row count/min/max, each subscriber received each stored row exactly once, and no error other than BufferFull occurs.",
+            "Chunk spans below 30 days; subscribers keep up; data races inside in-memory structures on a multi-thread runtime are not explored (request-granularity interleaving only).",
+            "DESIGN.md section 3 C06"),
+    "C01": ("ingest", "fault_enumeration",
+            "deterministic simulation with fault injection: seeded schedules x store faults x disk faults x node crashes/restarts (incarnation fencing), plus a systematic sweep failing/crashing at every object-store request of generated workloads; row-id conservation oracle",
+            "Real Ingester + WAL (EveryWrite) + object-store catalog; 2..4 writers, timer; per-run fault profile (store fail-before/after/delay; disk ENOSPC/EIO/short/torn; crashes at quiescent points or inside file operations; up to 6 restarts incl. crash during recovery); ended by graceful shutdown or crash+restart+shutdown with faults off. Every row whose write() returned Ok while the node was alive must be in a catalogued chunk afterwards; stored rows must equal what was submitted; duplicates allowed. Sweep: every request index x {crash before, crash after, fail before, fail after}.",
+            "EveryWrite sync mode; process-crash disk semantics; acknowledgement = write() returned Ok on a live incarnation; in-flight requests are drained before a graceful shutdown.",
+            "DESIGN.md section 3 C01"),
     "C13": ("meta-cas", "exploration",
             "deterministic simulation: seeded request-level interleaving of real catalog clients on shard objects + store fault injection; version-history check of the generation chain",
             "Seeded search over interleavings of 2..4 real clients creating/updating shard metadata with fresh, stale and wrong expected generations, with injected request failures/delays; every version of shards/<id>.json is attributed to exactly one call whose expected generation equals the previous version's, generations rise by exactly one, at most one winner per base generation; ShardRouter is fed the observed versions in random order and must never regress. Sampling, not proof.",
